@@ -367,8 +367,25 @@ class ObjNpModule(object):
                 if cnt not in (-1, None) and int(cnt) != len(items):
                     raise ip.PyRaise(I.make_exc('ValueError', 'iterator too short / too long for count'))
                 if any(isinstance(v, (S, core.C)) for v in items):
+                    want_dt = uk.get('dtype', ua[1] if len(ua) > 1 else None)
+                    kind = None
+                    try:
+                        kind = np.dtype(_npdtype(want_dt)).kind if want_dt is not None else None
+                    except Exception:
+                        kind = None
                     r = np.empty(len(items), dtype=object)
                     for i_, v in enumerate(items):
+                        if kind in ('i', 'u', 'b'):
+                            # conversion of a real value to an integer dtype truncates towards zero (not the identity)
+                            if isinstance(v, core.C):
+                                raise Unsupported('np.fromiter: complex values into an integer dtype')
+                            if isinstance(v, S) and z3.is_real(v.t):
+                                import z3 as _z3
+                                fl = _z3.ToReal(_z3.ToInt(v.t))
+                                ng = -_z3.ToReal(_z3.ToInt(-v.t))
+                                v = S(_z3.If(v.t >= 0, fl, ng))
+                        elif kind == 'f' and isinstance(v, core.C):
+                            raise Unsupported('np.fromiter: complex values into a real dtype')
                         r[i_] = v
                     return ONd(r)
                 return ONd(np.array(items, dtype=_npdtype(uk.get('dtype', ua[1] if len(ua) > 1 else None))))
@@ -421,6 +438,10 @@ class ObjNpModule(object):
                 return reduce_bool(I, fr, _cmp(a, b, lambda x, y: core.sc_eq(x, y) if isinstance(x, S) or isinstance(y, S) else x == y), 'all')
             if name in ('isclose', 'allclose'):
                 a_, b_ = ua[0], ua[1]
+                if isinstance(a_, (tuple, list)):
+                    a_ = np.asarray(a_, dtype=object)        # nested sequences of (symbolic) numbers are array-likes
+                if isinstance(b_, (tuple, list)):
+                    b_ = np.asarray(b_, dtype=object)
                 if not isinstance(a_, np.ndarray) and not isinstance(b_, np.ndarray):
                     return core.sc_eq(a_, b_) if (isinstance(a_, S) or isinstance(b_, S)) else bool(np.isclose(a_, b_))      # K8: exact over the reals
                 r = _cmp(np.asarray(a_, dtype=object), np.asarray(b_, dtype=object), lambda x, y: core.sc_eq(x, y) if isinstance(x, S) or isinstance(y, S) else bool(np.isclose(x, y)))
